@@ -75,6 +75,7 @@ type vC07Fo struct {
 // a report that is inside metadataAPI.ReportLeader: it has passed the (leader,
 // epoch) check and is parked at the gate before the witness registration
 type vC07Pend struct {
+	K       string `json:"k"` // report | shrink | expand
 	W       string `json:"w"`
 	L       string `json:"l"`
 	E       int64  `json:"e"`
@@ -96,7 +97,9 @@ func vGoID() uint64 {
 // vC07Gate parks the calling goroutine at the gate in ReportLeader if the driver
 // registered a slot for it (ordinary, atomic reports pass straight through)
 func vC07Gate(name string) {
-	if name != "metadata.report_leader.checked" {
+	switch name {
+	case "metadata.report_leader.checked", "metadata.shrink_isr.checked", "metadata.expand_isr.checked":
+	default:
 		return
 	}
 	if v, ok := vC07Slots.Load(vGoID()); ok {
@@ -199,7 +202,7 @@ func (r *vC07Run) state() vC07State {
 		Pend:   []vC07Pend{},
 	}
 	for _, x := range r.pend {
-		st.Pend = append(st.Pend, vC07Pend{W: x.W, L: x.L, E: x.E})
+		st.Pend = append(st.Pend, vC07Pend{K: x.K, W: x.W, L: x.L, E: x.E})
 	}
 	if f := r.failover(); f != nil {
 		f.mu.Lock()
@@ -309,7 +312,7 @@ func (r *vC07Run) step(step map[string]interface{}) (ev vC07Event, ok bool) {
 			w, ps := vStr(step, "w"), vStr(step, "ps")
 			l, e := r.pair(ps)
 			args["w"], args["ps"], args["l"], args["e"] = w, ps, l, int64(e)
-			slot := &vC07Pend{W: w, L: l, E: int64(e), parked: make(chan struct{}),
+			slot := &vC07Pend{K: "report", W: w, L: l, E: int64(e), parked: make(chan struct{}),
 				release: make(chan struct{}), done: make(chan *status.Status, 1)}
 			go func() {
 				gid := vGoID()
@@ -331,11 +334,60 @@ func (r *vC07Run) step(step map[string]interface{}) (ev vC07Event, ok bool) {
 			case <-time.After(vC07Deadline):
 				panic("report neither parked nor returned")
 			}
+		case "ISRCheck":
+			k, rep, ps := vStr(step, "k"), vStr(step, "r"), vStr(step, "ps")
+			l, e := r.pair(ps)
+			args["k"], args["r"], args["ps"], args["l"], args["e"] = k, rep, ps, l, int64(e)
+			if k == "shrink" && rep == l {
+				obs.A, a = "Skip", "Skip" // outside the domain, see Shrink
+				return
+			}
+			slot := &vC07Pend{K: k, W: rep, L: l, E: int64(e), parked: make(chan struct{}),
+				release: make(chan struct{}), done: make(chan *status.Status, 1)}
+			go func() {
+				gid := vGoID()
+				vC07Slots.Store(gid, slot)
+				defer vC07Slots.Delete(gid)
+				c2, cancel2 := context.WithTimeout(context.Background(), vC07Deadline)
+				defer cancel2()
+				if k == "shrink" {
+					slot.done <- r.srv.metadata.ShrinkISR(c2, &proto.ShrinkISROp{
+						Stream: r.stream, Partition: 0, ReplicaToRemove: rep, Leader: l, LeaderEpoch: e})
+				} else {
+					slot.done <- r.srv.metadata.ExpandISR(c2, &proto.ExpandISROp{
+						Stream: r.stream, Partition: 0, ReplicaToAdd: rep, Leader: l, LeaderEpoch: e})
+				}
+			}()
+			select {
+			case <-slot.parked:
+				r.pend = append(r.pend, slot)
+			case st := <-slot.done:
+				obs.Err = vC07ErrClass(st)
+				if st == nil {
+					obs.Err = "other:returned without reaching the gate"
+				}
+			case <-time.After(vC07Deadline):
+				panic("ISR request neither parked nor returned")
+			}
+		case "ISRApply":
+			i := int(vInt(step, "i"))
+			args["i"] = i
+			if i < 1 || i > len(r.pend) || r.pend[i-1].K == "report" ||
+				r.srv.metadata.GetPartition(r.stream, 0) == nil {
+				obs.A, a = "Skip", "Skip"
+				return
+			}
+			slot := r.pend[i-1]
+			close(slot.release)
+			st := <-slot.done
+			r.pend = append(append([]*vC07Pend{}, r.pend[:i-1]...), r.pend[i:]...)
+			obs.Err = vC07ErrClass(st)
 		case "ReportApply":
 			i := int(vInt(step, "i"))
 			args["i"] = i
 			args["pref"] = vStrDef(step, "pref", "none")
-			if i < 1 || i > len(r.pend) || r.srv.metadata.GetPartition(r.stream, 0) == nil {
+			if i < 1 || i > len(r.pend) || r.pend[i-1].K != "report" ||
+				r.srv.metadata.GetPartition(r.stream, 0) == nil {
 				obs.A, a = "Skip", "Skip"
 				return
 			}
